@@ -193,7 +193,11 @@ pub fn open_stack(root: &Path, s: &StackSpec) -> Handle {
     match s.checker {
         Checker::None => {}
         Checker::ByteEq => {
-            b.byte_equality_checker();
+            if route == 1 {
+                b.arc_consistency_checker(Some(Arc::new(kismet_cache::byte_equality_checker)));
+            } else {
+                b.byte_equality_checker();
+            }
         }
         Checker::Panicking => {
             b.panicking_byte_equality_checker();
@@ -247,7 +251,11 @@ pub fn open_readonly(root: &Path, readers: &[DirSpec], checker: Checker) -> Hand
     match checker {
         Checker::None => {}
         Checker::ByteEq => {
-            b.byte_equality_checker();
+            if route == 1 {
+                b.arc_consistency_checker(Some(Arc::new(kismet_cache::byte_equality_checker)));
+            } else {
+                b.byte_equality_checker();
+            }
         }
         Checker::Panicking => {
             b.panicking_byte_equality_checker();
